@@ -82,6 +82,8 @@ theorem nrInv_stable : Stable NrInv where
   argv s i v h := nrInv_of_fields h h.1 rfl
   argc s n h := nrInv_of_fields h h.1 rfl
   close s f h := nrInv_of_fields h h.1 rfl
+  fname s v h := nrInv_of_fields h h.1 rfl
+  fsep s v h := nrInv_of_fields h h.1 rfl
   enter s h := nrInv_of_fields h h.1 rfl
   leave s h := nrInv_of_fields h h.1 rfl
   take s r s1 h hn := by
